@@ -645,6 +645,13 @@ func init() {
 		}
 		return &Val{T: UF("gs.ascii", SBool, args[0].T), Typ: boolT}
 	}
+	// strcount / strcontains: the abstract results of strings.Count / strings.Contains (A-STR)
+	specBuiltins["strcount"] = func(ev *evaluator, args []*Val) *Val {
+		return &Val{T: UF("gs.count", SInt, args[0].T, args[1].T), Typ: intT}
+	}
+	specBuiltins["strcontains"] = func(ev *evaluator, args []*Val) *Val {
+		return &Val{T: UF("gs.contains", SBool, args[0].T, args[1].T), Typ: boolT}
+	}
 	specBuiltins["isdigits"] = func(ev *evaluator, args []*Val) *Val {
 		return &Val{T: strIsDigits(args[0].T), Typ: boolT}
 	}
